@@ -26,7 +26,7 @@ import time
 
 REPO = os.environ.get("VERIF_REPO", "/repo")
 VERIF = os.path.dirname(os.path.dirname(os.path.abspath(__file__)))
-WORK = os.path.join(VERIF, ".work")
+WORK = os.environ.get("VERIF_WORK") or os.path.join(VERIF, ".work")
 INC = "CPP/Clipper2Lib/include"
 HDR_DIR = INC + "/clipper2"
 SRC_DIR = "CPP/Clipper2Lib/src"
@@ -103,15 +103,22 @@ def tree_key(cfg, tu=None):
     return h.hexdigest()[:24]
 
 
-def _purge_old(keep=14):
+def _purge_old(keep=40, min_age_s=1800):
+    """Bound the cache: drop the oldest entries, but never one touched in the last half hour
+    (another check - or a mutation control - may be using it right now)."""
     try:
         ents = [os.path.join(WORK, d) for d in os.listdir(WORK)]
     except OSError:
         return
-    ents = [e for e in ents if os.path.isdir(e)]
+    ents = [e for e in ents if os.path.isdir(e) and not e.endswith("scratch-violations")]
     ents.sort(key=lambda e: os.path.getmtime(e))
+    now = time.time()
     for e in ents[:-keep]:
-        shutil.rmtree(e, ignore_errors=True)
+        try:
+            if now - os.path.getmtime(e) > min_age_s:
+                shutil.rmtree(e, ignore_errors=True)
+        except OSError:
+            pass
 
 
 def unity_source(with_driver=True):
